@@ -6,6 +6,7 @@ package c02
 import (
 	"bytes"
 	"context"
+	"errors"
 	"fmt"
 
 	"github.com/cloudwego/dynamicgo/conv"
@@ -15,6 +16,7 @@ import (
 	"github.com/cloudwego/dynamicgo/verifhook"
 	"github.com/cloudwego/dynamicgo/vsync"
 
+	"verif/checks/c18"
 	"verif/checks/jt"
 	"verif/engine/core"
 	"verif/ref/poolpoison"
@@ -35,7 +37,7 @@ func (check) Assumptions() []string {
 	return []string{
 		"reference = ref/tbin encoder over the value the harness wrote down as JSON (documents are produced by the harness's own renderer, never by dynamicgo)",
 		"domain restrictions (out of the statement's domain, not generated): out-of-range numbers, non-integral numbers for integer types, integer values beyond 2^53 in decimal/exponent spelling, null array elements / null at top level, text after the top-level value, invalid UTF-8 in JSON input, the base field inside the JSON body when EnableThriftBase is on",
-		"native amd64 build only (go1.23): the portable converter is C18's scope",
+		"both implementations: the native amd64 one in-process with every deviation (DoInto capacities, cache seeds, pools), the portable one (impl_fallback.go, -tags go1.25 binary) through Do for every scenario expressible over the pipe server (single-file program, default parse options, no context values)",
 	}
 }
 
@@ -161,6 +163,68 @@ func errClass(err error) string {
 }
 
 func (s *scen) run() core.Result {
+	r := s.runNative()
+	s.runPortable(&r)
+	return r
+}
+
+// portableBits: the conversion options as the bit set the portable pipe server understands, ok=false if they
+// (or the scenario's context / parse options / file layout) cannot be expressed over the pipe.
+func (s *scen) portableBits() (int, bool) {
+	if s.ctx != nil || s.prime != nil || s.popts != (thrift.Options{}) || !s.prog.SingleFile() {
+		return 0, false
+	}
+	bits := 0
+	c := s.copts
+	for _, x := range []struct {
+		on  bool
+		bit int
+	}{{c.String2Int64, c18.OString2Int64}, {c.NoBase64Binary, c18.ONoBase64Binary}, {c.DisallowUnknownField, c18.ODisallowUnknownField},
+		{c.WriteDefaultField, c18.OWriteDefaultField}, {c.WriteRequireField, c18.OWriteRequireField},
+		{c.EnableValueMapping, c18.OEnableValueMapping}, {c.WriteOptionalField, c18.OWriteOptionalField}} {
+		if x.on {
+			bits |= x.bit
+		}
+	}
+	return bits, c18.ConvOptions(bits) == c
+}
+
+// runPortable: the same document through the portable implementation of the converter (conv/j2t/impl_fallback.go,
+// what every non-amd64 or go1.25+ build runs), judged by the same reference. It lives in the second binary (pipe
+// server of C18): only Do, the default parse options and the presence of an error are visible there.
+func (s *scen) runPortable(r *core.Result) {
+	bits, ok := s.portableBits()
+	if !ok {
+		return
+	}
+	res, died, diag, err := c18.Portable(&c18.Req{IDL: s.prog.IDL(), Opts: []int{bits}, Doc: s.doc})
+	r.Count("conversions", 1)
+	r.Count("portable_conversions", 1)
+	switch {
+	case err != nil:
+		r.Class = "harness-portable"
+		r.Add("harness|portable-server", "%v", err)
+		return
+	case died:
+		r.Class = "died"
+		r.Add(fmt.Sprintf("j2t.Do[portable]|%s|%s|process-died-or-hung", s.op, s.trigger), "options %s\ndoc %s\nthe portable converter process died or did not answer within 20 s\n%s", s.optName, clip(s.doc, 400), diag)
+		return
+	case res[0].Panic != "":
+		r.Class = "panic"
+		r.Add(fmt.Sprintf("j2t.Do[portable]|%s|%s|panic@%s:%s", s.op, s.trigger, res[0].Site, core.PanicClass(res[0].Panic)), "options %s\ndoc %s\npanic: %.300s", s.optName, clip(s.doc, 300), res[0].Panic)
+		return
+	}
+	var perr error
+	if res[0].Err != "" {
+		perr = errors.New(res[0].Err)
+	}
+	if oc, det := s.judge(res[0].Out, perr); oc != "" {
+		r.Class = "violation"
+		r.Add(fmt.Sprintf("j2t.Do[portable]|%s|%s|%s", s.op, s.trigger, oc), "portable implementation, options %s\ndoc %s\n%s", s.optName, clip(s.doc, 400), det)
+	}
+}
+
+func (s *scen) runNative() core.Result {
 	r := core.Result{Class: "ok", Key: s.op + "|" + s.trigger + "|" + s.prog.Name + "|" + s.optName + "|" + string(s.doc)}
 	if s.prime != nil {
 		r.Key += "|after:" + string(s.prime)
